@@ -4,6 +4,7 @@ package main
 // monitors for C03 (control), C04 (sequence / replay), C05 (create once, tombstone), C11 (id = key).
 
 import (
+	"encoding/base64"
 	"sort"
 	"encoding/json"
 	"fmt"
@@ -142,10 +143,44 @@ type didGen struct {
 	seq      map[string]uint64 // the generator's guess of the stored sequence
 	curKey   map[string]int    // the generator's guess of the controlling key
 	curVM    map[string]string
+	curDoc   map[string]*didtypes.DIDDocument // the generator's guess of the stored document
 	active   map[string]bool
+	dead     map[string]bool // deactivated (as far as the generator can tell)
 	accepted []string // message lines that were (probably) accepted: candidates for replays
 	now      int64
 	warm     bool // early blocks: well-formed creates of the DIDs that do not exist yet
+}
+
+// kd: the key a DID of the generator is associated with
+func (g *didGen) kd(d int) int { return d % len(g.keys) }
+
+// authorised: would key k, named as vmid, control the document doc (exact id, listed under authentication, ES256K type)?
+func (g *didGen) authorised(doc *didtypes.DIDDocument, vmid string, k int) bool {
+	for _, pk := range authKeys(doc, vmid) {
+		if string(pk) == string(g.keys[k].pub) {
+			return true
+		}
+	}
+	return false
+}
+
+// methodIDs: every method id that occurs in doc (verification methods and dedicated relationship methods)
+func methodIDs(doc *didtypes.DIDDocument) []string {
+	var ids []string
+	if doc == nil {
+		return nil
+	}
+	for _, v := range doc.VerificationMethods {
+		ids = append(ids, v.Id)
+	}
+	for _, rels := range [][]didtypes.VerificationRelationship{doc.Authentications, doc.AssertionMethods, doc.KeyAgreements, doc.CapabilityInvocations, doc.CapabilityDelegations} {
+		for _, r := range rels {
+			if vm := r.GetVerificationMethod(); vm != nil {
+				ids = append(ids, vm.Id)
+			}
+		}
+	}
+	return ids
 }
 
 func (g *didGen) add(format string, a ...any) { g.lines = append(g.lines, fmt.Sprintf(format, a...)) }
@@ -291,7 +326,7 @@ func (g *didGen) sign(k int, data *didtypes.DIDDocument, seq uint64, tamper int)
 
 func (g *didGen) shape() int {
 	if g.r.Chance(70) {
-		return pick(g.r, []int{0, 0, 1, 5, 10, 11})
+		return pick(g.r, []int{0, 0, 1, 2, 3, 5, 10, 11})
 	}
 	return g.r.Intn(12)
 }
@@ -307,11 +342,11 @@ func (g *didGen) msg() (string, string) {
 		for i, dd := range g.dids {
 			if !g.active[dd] {
 				d, did = i, dd
-				ref, doc, vmid := g.buildDoc(did, d, pick(g.r, []int{0, 1, 5}))
-				sig := g.sign(d, doc, 0, 0)
+				ref, doc, vmid := g.buildDoc(did, g.kd(d), pick(g.r, []int{0, 1, 5}))
+				sig := g.sign(g.kd(d), doc, 0, 0)
 				line := joinSp("did.Create", toks(did), ref, toks(vmid), tok(sig), toks(from))
 				g.accepted = append(g.accepted, line)
-				g.active[did], g.seq[did], g.curKey[did], g.curVM[did] = true, 0, d, vmid
+				g.active[did], g.seq[did], g.curKey[did], g.curVM[did], g.curDoc[did] = true, 0, g.kd(d), vmid, doc
 				return line, from
 			}
 		}
@@ -336,13 +371,13 @@ func (g *didGen) msg() (string, string) {
 	k := g.r.Intn(100)
 	switch {
 	case k < 40 && !g.active[did] || k < 8: // create
-		key := d // the DID is derived from key d
+		key := g.kd(d) // the DID is associated with key d
 		if g.r.Chance(10) {
 			key = g.r.Intn(len(g.keys))
 		}
 		docID := did
 		didField := did
-		switch g.r.Intn(14) {
+		switch g.r.Intn(16) {
 		case 0:
 			docID = g.dids[(d+1)%len(g.dids)] // a document about somebody else (C11)
 		case 1:
@@ -351,6 +386,14 @@ func (g *didGen) msg() (string, string) {
 			didField = "did:panacea:short"
 		case 3, 4:
 			didField = nearMissDID(g.r, did) // a look-alike identifier: still well-formed, differs in one character
+		case 5:
+			if len(did) < len("did:panacea:")+44 { // the DID field extends the document id by one character
+				didField = did + string(didtypes.Base58Charset[g.r.Intn(len(didtypes.Base58Charset))])
+			}
+		case 6:
+			if len(did) > len("did:panacea:")+32 { // the document id extends the DID field
+				didField = did[:len(did)-1]
+			}
 		}
 		ref, doc, vmid := g.buildDoc(docID, key, g.shape())
 		sig := g.sign(key, doc, 0, pick(g.r, []int{0, 0, 0, 0, 0, 0, 0, 1, 2, 3}))
@@ -360,8 +403,8 @@ func (g *didGen) msg() (string, string) {
 		line := joinSp("did.Create", toks(didField), ref, toks(vmid), tok(sig), toks(from))
 		if docID == did && didField == did {
 			g.accepted = append(g.accepted, line)
-			if !g.active[did] {
-				g.active[did], g.seq[did], g.curKey[did], g.curVM[did] = true, 0, key, vmid
+			if !g.active[did] && !g.dead[did] && doc.Valid() && g.authorised(doc, vmid, key) {
+				g.active[did], g.seq[did], g.curKey[did], g.curVM[did], g.curDoc[did] = true, 0, key, vmid, doc
 			}
 		}
 		return line, from
@@ -371,6 +414,24 @@ func (g *didGen) msg() (string, string) {
 			signer = g.r.Intn(len(g.keys)) // a rotated-out or foreign key
 			if g.r.Bool() {
 				signer = (g.curKey[did] + 1) % len(g.keys) // the key listed beside the controlling one
+			}
+		}
+		directed := false
+		if cd := g.curDoc[did]; cd != nil && g.r.Chance(30) {
+			// a key that the stored document lists without giving it control (a plain or assertion-only method, the
+			// plain namesake of a dedicated one) signs, naming the method that does control the document
+			for k := range g.keys {
+				listed := false
+				for _, id := range methodIDs(cd) {
+					for _, v := range cd.VerificationMethods {
+						if v.Id == id && v.PublicKeyBase58 == g.keys[k].b58 {
+							listed = true
+						}
+					}
+				}
+				if listed && !g.authorised(cd, g.curVM[did], k) {
+					signer, directed = k, true
+				}
 			}
 		}
 		newKey := g.curKey[did]
@@ -393,16 +454,29 @@ func (g *didGen) msg() (string, string) {
 			_, other, _ := g.buildDoc(did, newKey, 0) // signature over different content
 			signData = other
 		}
-		sig := g.sign(signer, signData, seq, pick(g.r, []int{0, 0, 0, 0, 0, 0, 0, 0, 1, 3}))
+		tamperU := pick(g.r, []int{0, 0, 0, 0, 0, 0, 0, 0, 1, 3})
+		sig := g.sign(signer, signData, seq, tamperU)
 		vmid := g.curVM[did]
 		if vmid == "" {
 			vmid = did + "#key1"
 		}
+		if ids := methodIDs(g.curDoc[did]); len(ids) > 0 && !directed && g.r.Chance(25) {
+			vmid = pick(g.r, ids) // another method of the stored document is named: only its own key, if listed under authentication, may sign
+		}
 		line := joinSp("did.Update", toks(did), ref, toks(vmid), tok(sig), toks(from))
-		if signer == g.curKey[did] && seq == g.seq[did] && signData == doc && docID == did && g.active[did] {
+		if tamperU == 0 && g.authorised(g.curDoc[did], vmid, signer) && seq == g.seq[did] && signData == doc && docID == did && g.active[did] && doc.Valid() {
 			g.accepted = append(g.accepted, line)
 			g.seq[did]++
-			g.curKey[did], g.curVM[did] = newKey, newVM
+			g.curKey[did], g.curVM[did], g.curDoc[did] = newKey, newVM, doc
+			if !g.authorised(doc, newVM, newKey) { // the natural key of the new document does not control it: find one that does
+				for _, id := range methodIDs(doc) {
+					for k := range g.keys {
+						if g.authorised(doc, id, k) {
+							g.curKey[did], g.curVM[did] = k, id
+						}
+					}
+				}
+			}
 		}
 		return line, from
 	default: // deactivate
@@ -414,22 +488,28 @@ func (g *didGen) msg() (string, string) {
 		if g.r.Chance(25) {
 			seq = staleSeq(g.r, g.seq[did])
 		}
-		sig := g.sign(signer, &didtypes.DIDDocument{Id: did}, seq, pick(g.r, []int{0, 0, 0, 0, 0, 0, 1}))
+		tamperD := pick(g.r, []int{0, 0, 0, 0, 0, 0, 1})
+		sig := g.sign(signer, &didtypes.DIDDocument{Id: did}, seq, tamperD)
 		vmid := g.curVM[did]
 		if vmid == "" {
 			vmid = did + "#key1"
 		}
+		if ids := methodIDs(g.curDoc[did]); len(ids) > 0 && g.r.Chance(20) {
+			vmid = pick(g.r, ids)
+		}
 		line := joinSp("did.Deactivate", toks(did), toks(vmid), tok(sig), toks(from))
-		if signer == g.curKey[did] && seq == g.seq[did] && g.active[did] {
+		if tamperD == 0 && g.authorised(g.curDoc[did], vmid, signer) && seq == g.seq[did] && g.active[did] {
 			g.accepted = append(g.accepted, line)
 			g.seq[did]++
+			g.active[did], g.dead[did] = false, true
 		}
 		return line, from
 	}
 }
 
 func genDidHistory(r *RNG, nBlocks int) []string {
-	g := &didGen{r: r, seq: map[string]uint64{}, curKey: map[string]int{}, curVM: map[string]string{}, active: map[string]bool{}, now: 1700000100_000000000}
+	g := &didGen{r: r, seq: map[string]uint64{}, curKey: map[string]int{}, curVM: map[string]string{}, curDoc: map[string]*didtypes.DIDDocument{},
+		active: map[string]bool{}, dead: map[string]bool{}, now: 1700000100_000000000}
 	for i := 0; i < 4; i++ {
 		g.keys = append(g.keys, mkDidKey(i))
 		g.accts = append(g.accts, mkAcct(i))
@@ -437,7 +517,52 @@ func genDidHistory(r *RNG, nBlocks int) []string {
 	for i := 0; i < 3; i++ {
 		g.dids = append(g.dids, didtypes.NewDID(g.keys[i].pub))
 	}
+	// two shorter identifiers: the first 42 characters of DID 0 (what a lenient base64 decoder makes of an unpadded request
+	// for DID 0, and a proper prefix of it) and a 33-character one
+	g.dids = append(g.dids, g.dids[0][:len("did:panacea:")+42], g.dids[1][:len("did:panacea:")+33])
 	g.add("# GENESIS %d %s", 4, "1000000000000")
+	if r.Chance(60) {
+		// DID entries of the genesis file: documents with sequences far from zero (around the byte and word boundaries),
+		// tombstones, and entries GenesisState.Validate has to refuse (a document filed under another identifier, an
+		// empty document with the initial sequence, a key that is not a DID)
+		highSeqs := []uint64{1, 254, 255, 256, 257, 511, 65535, 65536, 1<<32 - 1, 1 << 32, 1<<63 - 1, 1<<64 - 2}
+		for d, did := range g.dids {
+			switch r.Intn(6) {
+			case 0, 1, 2:
+				ref, doc, vmid := g.buildDoc(did, g.kd(d), pick(r, []int{0, 1, 5}))
+				n := pick(r, highSeqs)
+				g.add("GD %s %s %d", toks(did), ref, n)
+				g.active[did], g.seq[did], g.curKey[did], g.curVM[did], g.curDoc[did] = true, n, g.kd(d), vmid, doc
+			case 3:
+				n := pick(r, highSeqs)
+				g.add("GD %s - %d", toks(did), n)
+				g.dead[did] = true
+			}
+		}
+		for i := 0; i < 2; i++ {
+			did := g.dids[r.Intn(len(g.dids))]
+			if g.active[did] || g.dead[did] {
+				continue
+			}
+			switch r.Intn(4) {
+			case 0: // a document about another identifier filed under this one
+				other := g.dids[(r.Intn(len(g.dids)-1)+1)%len(g.dids)]
+				if other == did {
+					other = nearMissDID(r, did)
+				}
+				ref, _, _ := g.buildDoc(other, 0, 0)
+				g.add("GD %s %s %d", toks(did), ref, pick(r, []uint64{0, 3}))
+			case 1: // an empty document with the initial sequence: neither a document nor a tombstone
+				g.add("GD %s - 0", toks(did))
+			case 2: // a key that is not a DID
+				ref, _, _ := g.buildDoc(did, 0, 0)
+				g.add("GD %s %s 0", toks("did:panacea:short"), ref)
+			default: // a malformed document
+				ref, _, _ := g.buildDoc(did, 0, 6+r.Intn(4))
+				g.add("GD %s %s 0", toks(did), ref)
+			}
+		}
+	}
 	for b := 0; b < nBlocks; b++ {
 		g.now += int64(1+r.Intn(5)) * 1_000_000_000
 		var blockLines []string
@@ -476,6 +601,34 @@ func genDidHistory(r *RNG, nBlocks int) []string {
 		g.add("DUMP did")
 		for _, d := range g.dids {
 			g.add("Q did.DID %s", toks(d))
+		}
+		// the did_base64 field as clients may send it: well formed, without padding, in the URL alphabet, with a line
+		// break, with a trailing character, truncated, of a longer identifier that starts with a registered one
+		for i := 0; i < 3; i++ {
+			d := g.dids[r.Intn(len(g.dids))]
+			std := base64.StdEncoding.EncodeToString([]byte(d))
+			var raw string
+			switch r.Intn(9) {
+			case 0:
+				raw = std
+			case 1:
+				raw = base64.RawStdEncoding.EncodeToString([]byte(d))
+			case 2:
+				raw = base64.URLEncoding.EncodeToString([]byte(d))
+			case 3:
+				raw = std[:8] + "\n" + std[8:]
+			case 4:
+				raw = std + "!"
+			case 5:
+				raw = std[:len(std)-1-r.Intn(3)]
+			case 6:
+				raw = base64.RawStdEncoding.EncodeToString([]byte(d + "ab"[:1+r.Intn(2)]))
+			case 7:
+				raw = base64.StdEncoding.EncodeToString([]byte(d+"Zz"[:1+r.Intn(2)])) + "="
+			default:
+				raw = pick(r, []string{"", "=", "====", "A", "AA==", "did:panacea:x"})
+			}
+			g.add("Q did.DID64 %s", toks(raw))
 		}
 	}
 	return g.lines
